@@ -512,10 +512,11 @@ def oracle(case, ob):
             return oo if i % 2 == 0 else [a + mlt * b for a, b in zip(oo, vv)]
         return on(lambda i, p: all(close(a, b) for a, b in zip(p, pt(i))), "origin / origin + length_mult * vector", "corners")
     if g == "dual_mesh":
-        src = case["_src_obs"]
+        src = (ob.get("inputs") or {}).get("mesh") or case["_src_obs"]
         ts = topo(src["V"], src["F"])
         if not (ts["closed"] and ts["oriented_manifold"] and ts["vertex_manifold"] and ts["all_used"] and ts["connected"]):
-            return None   # the dual of a bordered surface is not specified
+            # the faces of the dual of a bordered surface are not specified; its vertices are
+            return dual_points_fail(g, kw, src, X) if V == len(src["F"]) else fail("counts", "%d dual vertices for %d faces" % (V, len(src["F"])))
         t = topo(V, F)
         r = first(surface_type(), counts(len(src["F"]), src["V"]))
         if r:
@@ -529,9 +530,9 @@ def oracle(case, ob):
         for v, f in enumerate(F):
             if sorted(f) != sorted(i for i, pf in enumerate(src["F"]) if v in pf):
                 return fail("shape", "dual face %d is %s, faces around the vertex are different" % (v, f))
-        return None
+        return dual_points_fail(g, kw, src, X)
     if g == "spherify_vertices":
-        pts = kw["points"]["cloud"]
+        pts = ((ob.get("inputs") or {}).get("points") or {}).get("X") or kw["points"]["cloud"]
         n, rad = kw.get("n_subdiv", 1), kw.get("radius", 1e-2)
         per = 10 * 4 ** n + 2
         if V != per * len(pts) or len(F) != 20 * 4 ** n * len(pts):
@@ -546,7 +547,8 @@ def oracle(case, ob):
                     return fail("radius" + ("-n_subdiv=0" if n == 0 else ""), "a vertex of sphere %d is at %.6g from its point, radius %s" % (k, vnorm(vsub(p, c)), rad))
         return None
     if g == "cylindrify_edges":
-        pl = kw["mesh"]["polyline"]
+        inp = (ob.get("inputs") or {}).get("mesh")
+        pl = {"V": inp["X"], "E": inp["E"]} if inp else kw["mesh"]["polyline"]
         N = kw.get("N", 50)
         ne = len(pl["E"])
         if ne == 0:
@@ -558,7 +560,52 @@ def oracle(case, ob):
             m = shape_fail(topo(2 * N, sub), "annulus")
             if m:
                 return fail("shape", "cylinder %d: %s" % (k, m))
+        # cylinder k goes around edge k of the mesh as given, at radius * (mean edge length now)
+        Ls = [vnorm(vsub(pl["V"][b], pl["V"][a])) for a, b in pl["E"]]
+        L = sum(Ls) / len(Ls)
+        rad = kw.get("radius", 5e-2) * L
+        for k, (a, b) in enumerate(pl["E"]):
+            A, B = pl["V"][a], pl["V"][b]
+            ax = vsub(B, A)
+            la = vnorm(ax)
+            if la == 0:
+                continue
+            ax = [t / la for t in ax]
+            for j, p in enumerate(X[2 * N * k:2 * N * (k + 1)]):
+                base = A if j < N else B
+                d = vsub(p, base)
+                if abs(vdot(d, ax)) > 1e-7 * (rad + la) or abs(vnorm(d) - rad) > 1e-7 * rad:
+                    return fail("surface", "vertex %d of cylinder %d is not at radius*mean edge length = %.6g around edge %s of the mesh as given"
+                                % (j, k, rad, (a, b)))
         return None
+    return None
+
+
+def cross(u, v):
+    return [u[1] * v[2] - u[2] * v[1], u[2] * v[0] - u[0] * v[2], u[0] * v[1] - u[1] * v[0]]
+
+
+def dual_points_fail(g, kw, src, X):
+    """dual vertex k sits at the barycenter / circumcenter of face k of the input mesh AS IT IS NOW (current coordinates)"""
+    mode = str(kw.get("mode", "barycenter")).lower()
+    size = max([1e-300] + [abs(t) for p in src["X"] for t in p])
+    for k, f in enumerate(src["F"]):
+        P = [src["X"][v] for v in f]
+        if mode == "barycenter":
+            want = [sum(p[d] for p in P) / len(P) for d in range(3)]
+        elif mode == "circumcenter" and len(P) == 3:
+            a, b = vsub(P[1], P[0]), vsub(P[2], P[0])
+            n = cross(a, b)
+            nn = vdot(n, n)
+            if nn <= 1e-24 * size ** 4:
+                continue
+            u, w = cross(b, n), cross(n, a)
+            want = [P[0][d] + (vdot(a, a) * u[d] + vdot(b, b) * w[d]) / (2 * nn) for d in range(3)]
+        else:
+            continue
+        if max(abs(x - y) for x, y in zip(X[k], want)) > 1e-7 * size:
+            return ("%s/dual-point-%s" % (g, mode), "%s(%s): dual vertex %d is at %s, the %s of face %d of the mesh as given is %s"
+                    % (g, short(kw), k, [round(t, 6) for t in X[k]], mode, k, [round(t, 6) for t in want]))
     return None
 
 
@@ -571,6 +618,9 @@ def short(kw):
                 return "array(%d rows)" % len(v["arr"])
             if "mesh" in v:
                 return "%s(%s)" % (v["mesh"]["gen"], short(v["mesh"].get("kw", {})))
+            if "used" in v:
+                return "USED[%s; all persistent mouette.attributes computed%s; then edited %s]" % (
+                    short({"base": v["used"]["base"]}), ", values overwritten by junk" if v["used"].get("junk") else "", json.dumps(v["used"].get("edit", {})))
             return "<%s>" % list(v)[0]
         return repr(v)
     return ", ".join("%s=%s" % (k, s(v)) for k, v in kw.items())
@@ -848,6 +898,14 @@ def gen_outside(rng, tier):
     add("spherify_vertices", points={"cloud": [[dy(rng) for _ in range(3)] for _ in range(2)]}, radius=0.5, n_subdiv=0)
     add("cylindrify_edges", mesh={"polyline": {"V": [[0, 0, 0], [1, 0, 0], [1, 1, 0], [1, 1, 2]], "E": [[0, 1], [1, 2], [2, 3]]}}, radius=0.05, N=5)
     add("cylindrify_edges", mesh={"polyline": {"V": [[0, 0, 0], [1, 0, 0]], "E": [[0, 1]]}}, radius=0.1, N=3)
+    # inputs that arrive used and edited
+    pl = {"polyline": {"V": [[0, 0, 0], [1, 0, 0], [1, 1, 0], [1, 1, 2]], "E": [[0, 1], [1, 2], [2, 3]]}}
+    for junk in (False, True):
+        add("cylindrify_edges", mesh={"used": {"base": pl, "edit": {"scale": [2.0, 0.5, 3.0], "translate": [1.0, 1.0, 1.0]}, "junk": junk}}, radius=0.05, N=4)
+        add("spherify_vertices", points={"used": {"base": {"mesh": {"gen": "tetrahedron", "kw": {"P1": V3(0, 0, 0), "P2": V3(1, 0, 0), "P3": V3(0, 1, 0), "P4": V3(0, 0, 1)}}},
+                                                  "edit": {"scale": [2.0, 2.0, 2.0], "translate": [0.5, 0.0, -1.0]}, "junk": junk}}, radius=0.25, n_subdiv=1)
+        add("spherify_vertices", points={"used": {"base": {"cloud": [[dy(rng) for _ in range(3)] for _ in range(3)]},
+                                                  "edit": {"translate": [3.0, 0.0, 0.0], "move": [1, 0.5, 0.5, 0.0]}, "junk": junk}}, radius=0.5, n_subdiv=0)
     return cs
 
 
@@ -864,6 +922,22 @@ def gen_duals(rng, tier):
     src.append({"gen": "unit_grid", "kw": {"nu": 3, "nv": 3}})
     src.append({"gen": "ring", "kw": {"N": 5, "defect": 0.3}})
     out = [{"gen": "dual_mesh", "kw": {"mesh": {"mesh": s}}, "_src": s} for s in src]
+    # the input arrives "used": every persistent attribute of mouette.attributes computed on it (or user attributes of those
+    # names holding junk), THEN the geometry edited - the dual must be the dual of the mesh as it is now
+    edits = [{"scale": [3.0, 3.0, 3.0], "translate": [1.0, -2.0, 0.5]}, {"scale": [1.0, 2.0, 0.5]},
+             {"translate": [0.0, 0.0, 4.0], "move": [2, 0.25, 0.0, -0.125]}, {"scale": [-1.0, 1.0, 1.0], "move": [0, 0.5, 0.5, 0.5]}]
+    tri_src = [src[2], src[1], src[3], src[5], src[6]]
+    k = 0
+    for s_ in tri_src + [src[0], src[4]]:
+        for mode in ("barycenter", "circumcenter"):
+            if mode == "circumcenter" and s_ not in tri_src:
+                continue
+            for junk in (False, True):
+                kw = {"mesh": {"used": {"base": {"mesh": s_}, "edit": edits[k % len(edits)], "junk": junk}}}
+                if mode != "barycenter" or k % 2:
+                    kw["mode"] = mode
+                out.append({"gen": "dual_mesh", "kw": kw, "_src": s_})
+                k += 1
     tris = [src[1], src[2], src[3], src[5]]
     for s_, mode in zip(tris, ("Barycenter", "CIRCUMCENTER", "circumcenter", "BaryCenter")):
         out.append({"gen": "dual_mesh", "kw": {"mesh": {"mesh": s_}, "mode": mode}, "_src": s_})
@@ -1114,7 +1188,9 @@ def run(ctx):
             bad_i = ctx.run_cases("index", HEADER, terms, "check_index", case_type="icase", shard=60 if quick else 150)
             terms = [coord_case_term(c, o, info) for c, o in ccases]
             bad_c = ctx.run_cases("coords", HEADER, terms, "check_coords", case_type="ccase", shard=25 if quick else 60)
-            terms = ["(%s, %s, %s, %s)" % (faces_term(d["_src_obs"]["F"]), zlit(d["_src_obs"]["V"]), faces_term(o["F"]), zlit(o["V"]))
+            def _src(d, o):
+                return (o.get("inputs") or {}).get("mesh") or d["_src_obs"]
+            terms = ["(%s, %s, %s, %s)" % (faces_term(_src(d, o)["F"]), zlit(_src(d, o)["V"]), faces_term(o["F"]), zlit(o["V"]))
                      for d, o in dcases]
             bad_d = ctx.run_cases("dual", HEADER, terms, "check_dual", case_type="dcase", shard=8)
         except Exception as ex:
@@ -1167,6 +1243,8 @@ def replay(ctx, data):
     if c["gen"] == "dual_mesh":
         c = dict(c)
         a = c["kw"]["mesh"]
+        if "used" in a:
+            a = a["used"]["base"]
         c["_src"] = a["mesh"] if "mesh" in a else {"gen": "__raw__", "raw": a["raw"]}
     r, ob = judge(c)
     print("call: %s(%s)" % (c["gen"], short(c["kw"])))
